@@ -20,7 +20,7 @@ from ..term import Resolver, pmatch
 
 FLOORS = {"trip-count": 4, "length-pair": 4, "run_for.progress": 2, "pool-order": 1,
           "entry-resolves": 10, "equal-steps": 2, "ensemble-length": 1,
-          "zero-trip": 6}
+          "zero-trip": 6, "randomness-owned": 5}
 
 
 def run(prog, tier):
@@ -170,6 +170,9 @@ def run(prog, tier):
                                  c.module.relpath, fn.lineno, detail=",".join(sorted(set(missing))),
                                  slots={"defined_in": c.name}))
 
+    # ---------------------------------------------------------------- randomness is part of the chain's own state
+    obs.extend(_owned_randomness(prog))
+
     meta = {
         "explanation": "Trip-count algebra: executions of the step callee are summed symbolically over range() loops and "
                        "comprehensions with path splits on counter assignments, normalised with a%b = a-b*(a//b), and must "
@@ -180,6 +183,84 @@ def run(prog, tier):
         "info": info,
     }
     return obs, FLOORS, meta
+
+
+GLOBAL_RNG_OK = {"default_rng", "Generator", "SeedSequence", "BitGenerator", "PCG64", "RandomState"}
+
+
+def _owned_randomness(prog):
+    """A chain advanced in a pool worker (it is pickled there and back) or saved and reloaded ends where the same chain advanced in
+    sequence would only if every random draw of a step comes from a generator the chain itself holds.  A call that resolves to a
+    module-level function of numpy.random (the hidden process-wide generator) inside anything reachable from a step / advance
+    entry breaks that: the global state does not travel with the object."""
+    out = []
+    mcmc_classes = [ci for ci in prog.classes.values() if ci.module.relpath.startswith("inference/mcmc/")]
+    by_method = {}
+    for ci in mcmc_classes:
+        for m, fn in ci.methods.items():
+            by_method.setdefault(m.split(".")[0], []).append((ci, fn))
+    for cname in mcmc.SAMPLERS:
+        ci = prog.cls(cname)
+        seen, todo = {}, []
+        for entry in ("advance", "run_for", "take_step"):
+            c, fn = prog.find_method(ci, entry)
+            if fn is not None:
+                todo.append((c, fn))
+        while todo:
+            c, fn = todo.pop()
+            if id(fn) in seen:
+                continue
+            seen[id(fn)] = (c, fn)
+            for n in ast.walk(fn):
+                if isinstance(n, ast.Call) and isinstance(n.func, ast.Attribute):
+                    recv, m = n.func.value, n.func.attr
+                    if isinstance(recv, ast.Name) and recv.id == "self":
+                        cc, f2 = prog.find_method(ci, m)
+                        if f2 is None and m.startswith("__"):
+                            cc, f2 = prog.find_method(c, m)
+                        if f2 is not None:
+                            todo.append((cc, f2))
+                        else:
+                            for tc, tf in prog.slot_targets(ci, m)[0]:
+                                todo.append((tc, tf))
+                    else:
+                        # a call on another object of the package (a Parameter, the bounds, the mass, the step-size selector):
+                        # every method of that name in the mcmc package, and the occupants of a slot of that name
+                        for c2, f2 in by_method.get(m, []):
+                            if c2.name not in mcmc.SAMPLERS:
+                                todo.append((c2, f2))
+                        for c2 in mcmc_classes:
+                            if c2.name not in mcmc.SAMPLERS:
+                                for tc, tf in prog.slot_targets(c2, m)[0]:
+                                    todo.append((tc, tf))
+        hits = []
+        for c, fn in seen.values():
+            mi = c.module
+            for n in ast.walk(fn):
+                if not isinstance(n, ast.Call):
+                    continue
+                q = None
+                if isinstance(n.func, ast.Name):
+                    q = mi.imports.get(n.func.id)
+                elif isinstance(n.func, ast.Attribute):
+                    base = n.func.value
+                    parts = [n.func.attr]
+                    while isinstance(base, ast.Attribute):
+                        parts.append(base.attr)
+                        base = base.value
+                    if isinstance(base, ast.Name) and base.id in mi.imports:
+                        q = ".".join([mi.imports[base.id]] + parts[::-1])
+                if q and q.startswith("numpy.random.") and q.split(".")[-1] not in GLOBAL_RNG_OK and q.count(".") == 2:
+                    hits.append((c.module.relpath, n.lineno, f"{c.name}.{fn.name}", ast.unparse(n)[:100], q))
+        msg = ""
+        if hits:
+            rel_, line, where, text, q = hits[0]
+            msg = (f"`{text}` in {where} ({rel_}:{line}) resolves to {q}, the process-wide generator: the draw is not part of the chain's "
+                   f"state, so a chain advanced in a pool worker (or saved and reloaded) does not end where the same chain advanced in "
+                   f"sequence does")
+        out.append(struct_ob("randomness-owned", f"{ci.module.name}.{cname}", not hits, msg, ci.module.relpath,
+                             hits[0][1] if hits else ci.node.lineno, slots={"functions_reached": len(seen), "global_draws": [list(h) for h in hits]}))
+    return out
 
 
 def _trip(prog, c, fn, weight, param, what, want=None):
